@@ -301,6 +301,26 @@ def write_replay(engine_name, v, sc, choices, res, stats):
     return path
 
 
+def write_history_replay(engine_name, v, plan, master, tier):
+    """Replay that re-executes the worker batch up to the violating run (for
+    violations that depend on state left behind by earlier runs)."""
+    os.makedirs(os.path.join(VERIF, 'replays'), exist_ok=True)
+    batch = plan.get('batch', 200)
+    start = (v['index'] // batch) * batch
+    doc = {'engine': engine_name, 'property': v['property'], 'class': v['class'],
+           'message': v['message'], 'sig': v['sig'], 'repo_tree': repo_tree_hash(),
+           'history': {'gen_prop': plan.get('gen_prop', v['property']), 'tier': tier,
+                       'master': master, 'start': start, 'index': v['index']},
+           'digest': v['digest'],
+           'note': 'depends on process state from earlier runs of the batch: the replay '
+                   're-executes runs start..index in one process'}
+    path = os.path.join(VERIF, 'replays', '%s-%s-history-%d.json' % (
+        v['property'], v['class'], v['seed']))
+    with open(path, 'w') as f:
+        json.dump(doc, f, indent=1, default=_jsonable)
+    return path
+
+
 def _jsonable(o):
     if isinstance(o, (set, frozenset)):
         return sorted(o)
@@ -313,7 +333,14 @@ def do_replay(path, quiet=False):
     with open(path) as f:
         doc = json.load(f)
     eng = get_engine(doc['engine'])
-    res = eng.execute(doc['scenario'], doc['choices'], lenient=False)
+    if 'history' in doc:
+        h = doc['history']
+        res = None
+        for idx in range(h['start'], h['index'] + 1):
+            seed = run_seed(h['master'], h['gen_prop'], h['tier'], idx)
+            res = eng.execute(eng.generate(h['gen_prop'], seed))
+    else:
+        res = eng.execute(doc['scenario'], doc['choices'], lenient=False)
     v = {'property': doc['property'], 'class': doc['class']}
     x = same_violation(res, v)
     out = {'reproduced': bool(x), 'digest_equal': res['digest'] == doc['digest'],
@@ -448,29 +475,47 @@ def run_check(prop, tier, stages, level='exploration'):
             else:
                 new_violations.append(v)
         new_total += len(new_violations)
-        seen = set()
+        # one replay per (property, class, variant); a candidate whose replay does
+        # not reproduce in a fresh interpreter (e.g. it depended on state an
+        # earlier run left in the worker process) is retried with its batch
+        # history, then the next candidate of that class is tried
+        by_key = {}
         for v in new_violations:
             key = (v['property'], v['class'], str((v.get('sig') or {}).get('variant')))
-            if key in seen or len(seen) >= 3:
-                continue
-            seen.add(key)
-            sc, choices, res, min_stats = minimise(eng, v, plan.get('min_budget_s', 45))
-            path = write_replay(engine_name, v, sc, choices, res, min_stats)
-            ok, log = verify_replay_fresh(path) if res else (False, 'not reproducible')
-            if not ok:
-                path = write_replay(engine_name, v, v['scenario'], v['choices'],
-                                    eng.execute(v['scenario'], v['choices'], lenient=True),
-                                    {'note': 'minimised form did not replay; original kept'})
-                ok, log = verify_replay_fresh(path)
-            if ok:
-                replay_paths.append((v, path))
-                out_lines.append('VIOLATION property=%s replay=%s' % (v['property'], path))
-                out_lines.append('  engine=%s class=%s seed=%d :: %s'
-                                 % (engine_name, v['class'], v['seed'], v['message'][:600]))
-            else:
+            by_key.setdefault(key, []).append(v)
+        unreplayable = []
+        for key in list(by_key)[:3]:
+            done = False
+            for v in by_key[key][:4]:
+                sc, choices, res, min_stats = minimise(eng, v, plan.get('min_budget_s', 45))
+                ok = False
+                if res:
+                    path = write_replay(engine_name, v, sc, choices, res, min_stats)
+                    ok, log = verify_replay_fresh(path)
+                if not ok:
+                    r0 = eng.execute(v['scenario'], v['choices'], lenient=True)
+                    if same_violation(r0, v):
+                        path = write_replay(engine_name, v, v['scenario'], v['choices'], r0,
+                                            {'note': 'minimised form did not replay; original kept'})
+                        ok, log = verify_replay_fresh(path)
+                if not ok:
+                    path = write_history_replay(engine_name, v, plan, master, tier)
+                    ok, log = verify_replay_fresh(path)
+                if ok:
+                    replay_paths.append((v, path))
+                    out_lines.append('VIOLATION property=%s replay=%s' % (v['property'], path))
+                    out_lines.append('  engine=%s class=%s seed=%d :: %s'
+                                     % (engine_name, v['class'], v['seed'], v['message'][:600]))
+                    done = True
+                    break
+                unreplayable.append('%s/%s seed %d: %s' % (v['property'], v['class'],
+                                                           v['seed'], log[-300:]))
+            if not done and not replay_paths:
                 harness_fatal = harness_fatal or (
-                    'violation %s/%s seed %d did not replay in a fresh interpreter: %s'
-                    % (v['property'], v['class'], v['seed'], log[-500:]))
+                    'violation(s) did not replay in a fresh interpreter: %s'
+                    % '; '.join(unreplayable[-2:]))
+        if replay_paths and harness_fatal and 'did not replay' in harness_fatal:
+            harness_fatal = None
         hours = max(agg['wall'], 1e-9) / 3600.0
         tot_runs += agg['runs']
         tot_distinct += len(agg['nontrivial_digests'])
